@@ -549,6 +549,9 @@ func C05(ctx *core.Ctx) error {
 		if err := kdPhase(ctx, cov, "C05"); err != nil {
 			return err
 		}
+		if err := rdPhase(ctx, cov, "C05"); err != nil {
+			return err
+		}
 	}
 	if only != "" {
 		return core.Inconcl("filtered development run (VERIF_C05_ONLY=%s): %d cases, %d violations", only, len(cases), len(ctx.Violations()))
